@@ -51,14 +51,23 @@ pub fn c18_k_version_strings() {
         let (v, sp) = table[i];
         if same(s, sp) {
             matched = true;
-            assert!(matches!(r, Ok(x) if x == v), "C18: version spelling not recognised as its identifier");
+            assert!(
+                matches!(r, Ok(x) if x == v),
+                "C18: version spelling not recognised as its identifier"
+            );
         }
         let back: &str = v.into();
-        assert!(same(back, sp), "C18: version encodes to a different spelling");
+        assert!(
+            same(back, sp),
+            "C18: version encodes to a different spelling"
+        );
         i += 1;
     }
     if !matched {
-        assert!(r.is_err(), "C18: a string that is no version spelling was accepted");
+        assert!(
+            r.is_err(),
+            "C18: a string that is no version spelling was accepted"
+        );
     }
     kani::cover!(matched);
 }
@@ -81,14 +90,23 @@ pub fn c18_k_extension_strings() {
         let (v, sp) = table[i];
         if same(s, sp) {
             matched = true;
-            assert!(matches!(r, Ok(x) if x == v), "C18: extension spelling not recognised as its identifier");
+            assert!(
+                matches!(r, Ok(x) if x == v),
+                "C18: extension spelling not recognised as its identifier"
+            );
         }
         let back: &str = v.into();
-        assert!(same(back, sp), "C18: extension encodes to a different spelling");
+        assert!(
+            same(back, sp),
+            "C18: extension encodes to a different spelling"
+        );
         i += 1;
     }
     if !matched {
-        assert!(r.is_err(), "C18: a string that is no extension spelling was accepted");
+        assert!(
+            r.is_err(),
+            "C18: a string that is no extension spelling was accepted"
+        );
     }
     kani::cover!(matched);
 }
@@ -104,23 +122,41 @@ pub fn c18_k_transport_and_format_strings() {
     } else if same(s, b"usb") {
         assert!(matches!(t, Ok(Transport::Usb)), "C18: usb");
     } else {
-        assert!(t.is_err(), "C18: a string that is no transport was accepted");
+        assert!(
+            t.is_err(),
+            "C18: a string that is no transport was accepted"
+        );
     }
     let n: &str = Transport::Nfc.into();
     let u: &str = Transport::Usb.into();
-    assert!(same(n, b"nfc") && same(u, b"usb"), "C18: transport spellings");
+    assert!(
+        same(n, b"nfc") && same(u, b"usb"),
+        "C18: transport spellings"
+    );
 
     let f = AttestationStatementFormat::try_from(s);
     if same(s, b"none") {
-        assert!(matches!(f, Ok(AttestationStatementFormat::None)), "C18: none");
+        assert!(
+            matches!(f, Ok(AttestationStatementFormat::None)),
+            "C18: none"
+        );
     } else if same(s, b"packed") {
-        assert!(matches!(f, Ok(AttestationStatementFormat::Packed)), "C18: packed");
+        assert!(
+            matches!(f, Ok(AttestationStatementFormat::Packed)),
+            "C18: packed"
+        );
     } else {
-        assert!(f.is_err(), "C18: a string that is no attestation format was accepted");
+        assert!(
+            f.is_err(),
+            "C18: a string that is no attestation format was accepted"
+        );
     }
     let a: &str = AttestationStatementFormat::None.into();
     let b: &str = AttestationStatementFormat::Packed.into();
-    assert!(same(a, b"none") && same(b, b"packed"), "C18: attestation format spellings");
+    assert!(
+        same(a, b"none") && same(b, b"packed"),
+        "C18: attestation format spellings"
+    );
     kani::cover!(t.is_ok());
     kani::cover!(f.is_ok());
 }
@@ -133,10 +169,16 @@ pub fn c18_k_permission_bits() {
     assert!(Permissions::CREDENTIAL_MANAGEMENT.bits() == 0x04, "C18: cm");
     assert!(Permissions::BIO_ENROLLMENT.bits() == 0x08, "C18: be");
     assert!(Permissions::LARGE_BLOB_WRITE.bits() == 0x10, "C18: lbw");
-    assert!(Permissions::AUTHENTICATOR_CONFIGURATION.bits() == 0x20, "C18: acfg");
+    assert!(
+        Permissions::AUTHENTICATOR_CONFIGURATION.bits() == 0x20,
+        "C18: acfg"
+    );
     let raw: u8 = kani::any();
     match Permissions::from_bits(raw) {
-        Some(p) => assert!(raw & 0xC0 == 0 && p.bits() == raw, "C18: undefined permission bit accepted"),
+        Some(p) => assert!(
+            raw & 0xC0 == 0 && p.bits() == raw,
+            "C18: undefined permission bit accepted"
+        ),
         None => assert!(raw & 0xC0 != 0, "C18: defined permission bits rejected"),
     }
 }
